@@ -404,6 +404,76 @@ def gen_renegesched(rng):
     return sc
 
 
+def gen_infblock(rng):
+    """infinite-server and slotted nodes (no server objects) in front of small capacitated nodes, with batches and
+    few distinct service times: simultaneous completions, blocking and unblocking out of server-less nodes"""
+    N = rng.choice([2, 2, 3])
+    sc = gen_tandem(rng, N=N, K=1)
+    sc["prio"] = [0]
+    sc["syscap"] = INF
+    first = sc["nodes"][0]
+    if rng.random() < 0.7:
+        first["kind"] = "std"
+        first["c"] = INF
+        first["qcap"] = INF
+    else:
+        first["kind"] = "slot"
+        first["c"] = 0
+        first["qcap"] = INF
+        first["slot"] = {"slots": [rng.randint(1, 3)], "sizes": [rng.choice([2, 3, 4])], "cap": False, "pre": 0, "off": 0}
+    for nd in sc["nodes"][1:]:
+        nd["c"] = rng.choice([1, 1, 2])
+        nd["qcap"] = rng.choice([0, 0, 1])
+    P = [[0] * N for _ in range(N)]
+    for d in range(1, N):
+        P[0][d] = 4 // (N - 1)
+    for n in range(1, N):
+        P[n][0] = rng.choice([0, 0, 1])
+        if n + 1 < N:
+            P[n][n + 1] = rng.choice([0, 2])
+    sc["route"] = [tm(P)]
+    sc["arrS"] = [[samples(rng, 1, 2, 2)]] + [[[]] for _ in range(N - 1)]
+    sc["batchS"] = [[[1, 2, 3]]] + [[[]] for _ in range(N - 1)]
+    v = rng.randint(1, 3)
+    sc["svcS"] = [[[v]]] + [[samples(rng, 2, 5, 2)] for _ in range(N - 1)]
+    sc["T"] = rng.randint(12, 30)
+    return sc
+
+
+def gen_ppsched(rng):
+    """pre-emptive priorities at nodes with server schedules (zero-server shifts included)"""
+    K = 2
+    sc = gen_tandem(rng, N=rng.choice([1, 1, 2]), K=K)
+    sc["prio"] = [0, 1]
+    sc["syscap"] = INF
+    for n, nd in enumerate(sc["nodes"]):
+        nd["qcap"] = INF
+        if nd["c"] >= INF or nd["c"] == 0:
+            nd["c"] = 1
+        if n == 0:
+            m = rng.randint(2, 3)
+            nums = [rng.choice([0, 1, 1, 2]) for _ in range(m)]
+            if all(nums):
+                nums[rng.randrange(m)] = 0
+            if not any(nums):
+                nums[0] = 1
+            ends, t = [], 0
+            for _ in range(m):
+                t += rng.randint(2, 6)
+                ends.append(t)
+            nd["kind"] = "sched"
+            nd["c"] = 0
+            nd["sched"] = {"nums": nums, "ends": ends, "pre": rng.choice([0, 1, 2, 3]), "off": rng.choice([0, 0, 1])}
+        nd["pp"] = rng.choice([1, 2, 3])
+    for n in range(sc["N"]):
+        for k in range(K):
+            sc["svcS"][n][k] = samples(rng, 2, 7, 2)
+            if n == 0:
+                sc["arrS"][n][k] = samples(rng, 1, 4, 2)
+    sc["T"] = rng.randint(15, 40)
+    return sc
+
+
 def gen_ccw(rng, N=1):
     """class change while waiting (class_change_time_distributions)"""
     K = rng.choice([2, 2, 3])
@@ -676,6 +746,8 @@ def gen_stopcount(rng):
 FAMILIES = {
     "stopcount": gen_stopcount,
     "trk": gen_trk,
+    "infblock": gen_infblock,
+    "ppsched": gen_ppsched,
     "slotpre": gen_slotpre,
     "renegesched": gen_renegesched,
     "jockey": gen_jockey,
